@@ -85,8 +85,13 @@ def gen(rng, with_pump):
             lines.append(("@redefn %s, %s + 2" % (loc, o), ns)); defined.add((ns, loc))
         elif r < 0.80 and have:
             l = rng.choice(have); lines.append(("@undef %s" % l, ns)); defined.discard((ns, l))
-        elif r < 0.86:
+        elif r < 0.84:
             lines.append(("@db @isdef %s" % loc, ns))
+        elif r < 0.86 and fresh:
+            # a size that is only known later: the reference is recorded under the name's qualified spelling
+            l = rng.choice(fresh)
+            lines.append(("@db @sizeof %s" % l, ns))
+            lines.append(('@meta "@SIZEOF" "%d"\n%s:\n@endmeta' % (rng.randrange(1, 200), l), ns)); defined.add((ns, l))
         elif r < 0.88:
             lines.append((rng.choice(["@redefl gctr9, gctr9 + 1", "@redefn gctr9, 7", "@redefl gctr9, %s + 1" % loc]), ns))
             if loc in lines[-1][0]: used.add((ns, loc))
